@@ -603,6 +603,74 @@ func checkC04(c *Ctx, r *Report) {
 		}
 	}
 
+	// ---------- R13: the engines reach the backend only through the retry loop ----------
+	r.Rule("C04-R13", "from the engines' ProxyService entry points (exported ProxyRequest… methods of the sherpa and olla services) no upstream RoundTrip / Client.Do is reachable by static calls that bypass the retry loop: a 'direct path' (single candidate, legacy helper) performs the attempt without failover bookkeeping — a connection failure there neither marks the endpoint offline nor is recorded against it, so the dead endpoint stays in rotation", 4)
+	{
+		hasRoundTrip := func(f *ssa.Function) token.Pos {
+			var p token.Pos
+			eachInstr(f, func(in ssa.Instruction) {
+				if cc := getCall(in); cc != nil {
+					ci := describeCall(cc)
+					if ci.Name == "RoundTrip" || (ci.Pkg == "net/http" && ci.Recv == "Client" && ci.Name == "Do") {
+						p = in.Pos()
+					}
+				}
+			})
+			return p
+		}
+		nEntry := 0
+		for _, f := range c.Funcs {
+			pp := fnPkgPath(f)
+			if f.Parent() != nil || f.Signature.Recv() == nil || !(strings.HasSuffix(pp, "/proxy/olla") || strings.HasSuffix(pp, "/proxy/sherpa")) {
+				continue
+			}
+			if !strings.HasPrefix(f.Name(), "ProxyRequest") || !f.Object().Exported() {
+				continue
+			}
+			nEntry++
+			key := fname(f) + ":upstream-only-through-retry-loop"
+			seen := map[*ssa.Function]bool{}
+			var chain []string
+			var bad string
+			var walk func(g *ssa.Function, depth int)
+			walk = func(g *ssa.Function, depth int) {
+				if g == nil || seen[g] || g == loopFn || g.Blocks == nil || depth == 0 || bad != "" {
+					return
+				}
+				seen[g] = true
+				chain = append(chain, fname(g))
+				if p := hasRoundTrip(g); p.IsValid() {
+					bad = strings.Join(chain, " → ") + " (" + c.Pos(p) + ")"
+					return
+				}
+				eachInstr(g, func(in ssa.Instruction) {
+					cc := getCall(in)
+					if cc == nil {
+						return
+					}
+					if sc := cc.StaticCallee(); sc != nil && c.inRepo(sc) {
+						walk(sc, depth-1)
+					}
+					if mc, ok := cc.Value.(*ssa.MakeClosure); ok { // a closure run right here
+						if h, ok := mc.Fn.(*ssa.Function); ok {
+							walk(h, depth-1)
+						}
+					}
+				})
+				chain = chain[:len(chain)-1]
+			}
+			walk(f, 6)
+			if bad != "" {
+				r.Bad("C04-R13", key, f.Pos(), "the backend can be contacted without going through the retry loop: "+bad)
+			} else {
+				r.OK("C04-R13", key, f.Pos(), "every upstream round trip below this entry point runs inside the retry loop's attempt function")
+			}
+		}
+		if nEntry == 0 {
+			r.Unresolved("C04-R13", "exported ProxyRequest… methods of the proxy engines")
+		}
+	}
+
 	// ---------- R3 ----------
 	r.Rule("C04-R3", "for each `return fmt.Errorf(...)` of the error wrapper guarded by a connection-failure class (errors.As net.Error ∧ ¬Timeout, ECONNREFUSED, ECONNRESET, Contains 'connection refused'/'connection reset'), the abstract error is accepted by the retry predicate", 5)
 	if gate == nil {
@@ -699,6 +767,8 @@ func checkC04(c *Ctx, r *Report) {
 			Old: `return fmt.Errorf("%w for endpoint %s", core.ErrCircuitOpen, endpoint.Name)`, New: `return fmt.Errorf("circuit breaker open for endpoint %s", endpoint.Name)`},
 		Mutant{Prop: "C04", Name: "started-response-returns-before-mark", File: "internal/adapter/proxy/core/retry.go", Rule: "C04-R12",
 			Old: "			h.markEndpointUnhealthy(ctx, endpoint)\n			return lastErr\n", New: "			return lastErr\n"},
+		Mutant{Prop: "C04", Name: "single-candidate-direct-path", File: "internal/adapter/proxy/olla/service.go", Rule: "C04-R13",
+			Old: "	return s.ProxyRequestToEndpointsWithRetry(ctx, w, r, endpoints, stats, rlog)\n}", New: "	if len(endpoints) == 1 {\n		return s.proxyToSingleEndpointLegacy(ctx, w, r, endpoints, stats, rlog)\n	}\n	return s.ProxyRequestToEndpointsWithRetry(ctx, w, r, endpoints, stats, rlog)\n}"},
 		Mutant{Prop: "C04", Name: "skip-without-remove", File: "internal/adapter/proxy/core/retry.go", Rule: "C04-R2", Expect: "removes",
 			Old: "			availableEndpoints = h.removeFailedEndpoint(availableEndpoints, endpoint)\n			continue", New: "			continue"},
 		Mutant{Prop: "C04", Name: "mark-debounced", File: "internal/adapter/proxy/core/retry.go", Rule: "C04-R2", Expect: "marks",
